@@ -268,6 +268,31 @@ PROPS = {
         ],
         technique="runtime monitoring: recording / fault-injecting sink, exhaustive over operation indices per input",
     ),
+    "C18": dict(
+        level="exploration",
+        exhaustive=True,
+        floor=50,
+        builds=["harness"],
+        legs=lambda tier, seed, scratch: [
+            dict(cmd="c18i", name="c18-index", cases=_count("c18i-count", tier), stall_s=120),
+            dict(cmd="c18v", name="c18-fileview", cases=_q(tier, 25, 45), stall_s=300),
+            dict(cmd="c18s", name="c18-chunker", cases=_count("c18i-count", tier), stall_s=120),
+        ],
+        rule="Exhaustive small worlds, independent of the seed. index_chroms: every run-length vector in {1,2,3,5,9}^{1..4} "
+        "(780) x chromosome names {ASCII, multi-byte UTF-8} x line pattern {uniform, mixed lengths, one ~300-byte line at "
+        "EVERY line position} x {final newline, none}; the result must equal the linear scan's (offset, name) list, and "
+        "for the uniform / long-first-line files the parallel source fed with the returned index must produce the same "
+        "sink bytes as the serial source. Ungrouped variants (a chromosome reappears at the end / a foreign run strictly "
+        "inside another) are judged only by the weaker condition: None, or the parallel writer fed with the index ends "
+        "in an error. FileView: a byte-array model of the window with clamping semantics; ALL windows [a,b) of a 24-byte "
+        "(quick) / 44-byte (thorough) file incl. b past the end and u64::MAX x ALL sequences of 3 (thorough 4) "
+        "operations over {read 0/1/7/1000, Start 0/3/1000, Current -1000/-2/0/2/1000, End -1000/-3/0/5}; short reads "
+        "are legal, wrong bytes / positions / panics are not. split_file_into_chunks_by_size: the same files, every "
+        "chunk count 1..lines+2: chunks contiguous, cover [0,size) once, every cut at a line start. Non-trivial = >= 2 "
+        "runs (index, chunker) / every window start (FileView).",
+        assumptions=["scratch files live under /verif/.work (ordinary file system)"],
+        technique="runtime monitoring: exhaustive small-world enumeration against linear-scan / byte-array models",
+    ),
     "C07": dict(
         level="exploration",
         floor=50,
